@@ -203,6 +203,10 @@ def um (env : Env) (L : Leaves) : Nat → Ty → Val → R Val
       | none => .error .unsupported
       | some true => .ok v
       | some false =>
+        match pyMem? env (decode v) vs with
+        | none => .error .unsupported
+        | some true => .ok (decode v)
+        | some false =>
         match load env L v with
         | .error er => .error er
         | .ok d =>
